@@ -684,7 +684,7 @@ def throttle_case(arg):
         fails.append({'input': dict(inp, **{'class': 'probe-connections-repeated-name'}), 'got': {'probe connections': n_probe}, 'want': 'at most 1 + 1 host-key type + 9 group-exchange probes'})
     extra = len(srv.conn_log) - n_probe
     if st == 99:
-        fails.append({'input': dict(inp, **{'class': 'rate-check-never-ends'}), 'got': 'still polling after 20000 select() calls / 200000 reads', 'want': 'the rate check ends after its time limit (1.5 s)'})
+        fails.append({'input': dict(inp, **{'class': 'rate-check-never-ends'}), 'got': 'still polling after 3000 select() calls / 200000 reads', 'want': 'the rate check ends after its time limit (1.5 s)'})
     if extra > 38 or st == 99:
         fails.append({'input': inp, 'got': {'rate-check connections': extra}, 'want': 'at most 38'})
     if any(not c['closed'] for c in srv.conn_log):
